@@ -64,6 +64,7 @@ type c19Case struct {
 	ignPairs   [][2]int
 	bw         map[uint64]uint64
 	defaultCfg bool
+	probSalt   int // 0: constant probability 1; else a fixed table
 }
 
 func (cs *c19Case) clone() *c19Case {
@@ -367,6 +368,13 @@ func (c *c19) genCase() *c19Case {
 	cs.height = uint32(c.pick(0, 1, 100, 800000, 800000, 1<<31-5000))
 	cs.finalDelta = uint16(c.pick(3, 9, 18, 40, 40, 144, 0, 1))
 	cs.defaultCfg = c.chance(0.5)
+	if c.chance(0.3) {
+		cs.probSalt = 1 + r.Intn(50)
+	}
+	if c.chance(0.01) {
+		// malformed: a target that is not in the graph.
+		cs.tgt = cs.n
+	}
 	// bandwidth hints for channels adjacent to self.
 	for _, ch := range cs.chans {
 		if ch.a != cs.self && ch.b != cs.self {
@@ -466,7 +474,7 @@ func (c *c19) run(cs *c19Case, g Graph, sess GraphSessionFactory,
 	}
 	c.pf("CASE %d kind=%s via=%s n=%d self=%d src=%d tgt=%d amt=%d "+
 		"feeLimit=%d cltvLimit=%d height=%d finalDelta=%d lastHop=%s "+
-		"outChans=%s ignNodes=%s ignPairs=%s", c.n, cs.kind, cs.via, cs.n,
+		"outChans=%s ignNodes=%s ignPairs=%s prob=%d", c.n, cs.kind, cs.via, cs.n,
 		cs.self, cs.src, cs.tgt, cs.amt, cs.feeLimit, cs.cltvLimit,
 		cs.height, cs.finalDelta, lh,
 		c19List(cs.outChans, func(x uint64) string {
@@ -475,7 +483,7 @@ func (c *c19) run(cs *c19Case, g Graph, sess GraphSessionFactory,
 		c19List(cs.ignNodes, strconv.Itoa),
 		c19List(cs.ignPairs, func(p [2]int) string {
 			return fmt.Sprintf("%d>%d", p[0], p[1])
-		}))
+		}), cs.probSalt)
 	for _, k := range cs.order {
 		ch := cs.chans[k]
 		c.pf("chan %d %d %d cap=%d p1=%s p2=%s", ch.id, ch.a, ch.b,
@@ -512,6 +520,12 @@ func (c *c19) run(cs *c19Case, g Graph, sess GraphSessionFactory,
 		}
 		if _, ok := ignP[DirectedNodePair{From: from, To: to}]; ok {
 			return 0
+		}
+		if cs.probSalt != 0 {
+			table := []float64{1, 0.95, 0.5, 1, 0.9, 0.75, 1, 0.6}
+			k := idx[from]*7 + idx[to]*3 + cs.probSalt
+
+			return table[k%len(table)]
 		}
 		return 1
 	}
@@ -905,7 +919,7 @@ func TestVerifC19(t *testing.T) {
 			for i := 0; i < cs.n; i++ {
 				g.idx[memKeys[i]] = i
 			}
-			res := c.run(cs, g, g, memKeys[:cs.n])
+			res := c.run(cs, g, g, memKeys[:cs.n+1])
 			if res.rt == nil || !c.chance(0.85) {
 				break
 			}
@@ -917,6 +931,9 @@ func TestVerifC19(t *testing.T) {
 	for k := 0; k < nDB; k++ {
 		cs := c.genCase()
 		cs.self = cs.src
+		if cs.tgt >= cs.n {
+			cs.tgt = (cs.src + 1) % cs.n
+		}
 		useCache := k%2 == 0
 		cs.kind = "dbn"
 		if useCache {
